@@ -1510,11 +1510,14 @@ func HarnessEntity() {
 		}
 		return def
 	}
-	casing := rng(0, "casing", 0, 2, 1)
-	entName := []string{"foo", "fooBar", "foo_bar"}[casing]
-	camel := []string{"Foo", "FooBar", "FooBar"}[casing]
-	snake := []string{"foo", "foo_bar", "foo_bar"}[casing]
-	screaming := []string{"FOO", "FOO_BAR", "FOO_BAR"}[casing]
+	casing := rng(0, "casing", 0, 3, 1)
+	// (the last one has consecutive capitals: its camel form is not the camel of its snake form)
+	entName := []string{"foo", "fooBar", "foo_bar", "APIKey"}[casing]
+	camel := []string{"Foo", "FooBar", "FooBar", "Apikey"}[casing]
+	snake := []string{"foo", "foo_bar", "foo_bar", "api_key"}[casing]
+	screaming := []string{"FOO", "FOO_BAR", "FOO_BAR", "API_KEY"}[casing]
+	// the query service and its methods are named from the snake-cased entity name
+	qcamel := []string{"Foo", "FooBar", "FooBar", "ApiKey"}[casing]
 
 	nKeys := rng(0, "keys", 1, verifParam("K", 2), 1)
 	type keySpec struct{ isKeyType, primary, shard bool }
@@ -1685,10 +1688,10 @@ func HarnessEntity() {
 		}
 	}
 	// query service: Get, List, Events with primary(+shard) keys as path parameters in declaration order
-	q := verifFindService(svcFile, camel+"QueryService")
+	q := verifFindService(svcFile, qcamel+"QueryService")
 	verifAssert(q != nil, "query-service")
 	if q != nil {
-		get, list, evs := verifFindMethod(q, camel+"Get"), verifFindMethod(q, camel+"List"), verifFindMethod(q, camel+"Events")
+		get, list, evs := verifFindMethod(q, qcamel+"Get"), verifFindMethod(q, qcamel+"List"), verifFindMethod(q, qcamel+"Events")
 		verifAssert(get != nil && list != nil && evs != nil && len(q.Method) == 3, "get-list-events-methods")
 		wantGet := "/a/v1/" + snake + "/q"
 		wantList := "/a/v1/" + snake + "/q"
